@@ -72,6 +72,13 @@ func slice(array, from, to interface{}) interface{} {
 			a = b
 		}
 
+		if v.Kind() == reflect.Array && !v.CanAddr() {
+			// An array held in an interface is not addressable and
+			// cannot be sliced in place: slice a copy of it.
+			arr := reflect.New(v.Type()).Elem()
+			arr.Set(v)
+			v = arr
+		}
 		value := v.Slice(a, b)
 		if value.IsValid() && value.CanInterface() {
 			return value.Interface()
